@@ -158,6 +158,24 @@ pub fn scan_fn(f: &str, a: &[&str]) -> Option<String> {
             }));
             Some(match r { Ok(v) => format!("ok {}", v), Err(_) => "fault".to_string() })
         }
+        // C01: many deterministic signatures under one generated key: each must be produced (the call returns) and verify;
+        // answer: ok n=<count> bad=<first failing message index or -> ; a signing call that never returns shows as a timeout of the process
+        ("signmany", 3) => {
+            let s = set_fns(a[0])?; let seed = unhex(a[1])?; let count: usize = a[2].parse().ok()?;
+            let mut pk = vec![0xA5u8; s.pk]; let mut sk = vec![0xA5u8; s.sk];
+            (s.keypair)(&mut pk, &mut sk, Some(&seed));
+            let mut bad: Option<String> = None;
+            for i in 0..count {
+                let msg = (i as u32).to_le_bytes().to_vec();
+                let r = panic::catch_unwind(AssertUnwindSafe(|| {
+                    let mut sig = vec![0xA5u8; s.sig];
+                    (s.sign)(&mut sig, &msg, &sk, false);
+                    (s.verify)(&sig, &msg, &pk)
+                }));
+                match r { Ok(true) => {}, Ok(false) => { bad = Some(format!("msg{}:rejected", i)); break; }, Err(_) => { bad = Some(format!("msg{}:panic", i)); break; } }
+            }
+            Some(format!("ok n={} bad={}", count, bad.unwrap_or("-".to_string())))
+        }
         _ => None,
     }
 }
